@@ -238,19 +238,7 @@ func c15Sizes(c *engine.Ctx) {
 		if !c.Mine() {
 			continue
 		}
-		ats := []ref.AKAAttr{{T: ref.AtRAND, V: univ.Pat(16, total)}, {T: ref.AtMAC, V: make([]byte, 16)}}
-		rest := total - 10
-		for t := uint8(130); rest > 0; t++ {
-			w := rest
-			if w > 255 {
-				w = 255
-			}
-			ats = append(ats, ref.AKAAttr{T: t, V: univ.Pat(4*w-2, int(t)+total)})
-			rest -= w
-		}
-		ats = append(ats, ref.AKAAttr{T: 140, V: univ.Pat(6, total)}, ref.AKAAttr{T: 141, V: univ.Pat(2, total+1)})
-		e := &ref.EAP{Code: 1, ID: uint8(total), Method: 50, Sub: 1, AKA: ats}
-		c15RefReceiver(c, e, fmt.Sprintf("boundary@%d words", total))
+		c15RefReceiver(c, akaBoundaryPacket(total), fmt.Sprintf("boundary@%d words", total))
 	}
 }
 
@@ -636,4 +624,22 @@ func c15Sensitivity(c *engine.Ctx, cs c15Case, wire []byte, pos int, x byte) {
 		}
 	}
 	c.Violate("sensitivity/unchanged-mac/"+region, fmt.Sprintf("%s: octet %d (%s) of the packet changed (xor %02x), the packet still decodes and the receiver computes the same MAC %x", cs.Name, pos, region, x, m1), cs)
+}
+
+// akaBoundaryPacket: a well-formed EAP-AKA' packet (attributes in ascending type order, zero reserved octets in the
+// attributes that have them) whose first `total` words of attributes are AT_RAND, AT_MAC and filler attributes of
+// skippable types (255 words each at most), followed by two more attributes.
+func akaBoundaryPacket(total int) *ref.EAP {
+	ats := []ref.AKAAttr{{T: ref.AtRAND, V: univ.Pat(16, total)}, {T: ref.AtMAC, V: make([]byte, 16)}}
+	rest := total - 10
+	for t := uint8(130); rest > 0; t++ {
+		w := rest
+		if w > 255 {
+			w = 255
+		}
+		ats = append(ats, ref.AKAAttr{T: t, V: univ.Pat(4*w-2, int(t)+total)})
+		rest -= w
+	}
+	ats = append(ats, ref.AKAAttr{T: 140, V: univ.Pat(6, total)}, ref.AKAAttr{T: 141, V: univ.Pat(2, total+1)})
+	return &ref.EAP{Code: 1, ID: uint8(total), Method: 50, Sub: 1, AKA: ats}
 }
